@@ -37,9 +37,10 @@ type (
 		Name, Sort string
 	}
 	EQuant struct {
-		Forall bool
-		Vars   []QVar
-		Body   Expr
+		Forall   bool
+		Vars     []QVar
+		Body     Expr
+		Triggers []Expr // optional: forall k int trigger(f(k), g(k)) :: body
 	}
 	EOld struct{ X Expr }
 )
@@ -188,6 +189,17 @@ func (ps *exprParser) expr() Expr {
 			if !ps.accept(",") {
 				break
 			}
+		}
+		if t := ps.peek(); t.kind == "id" && t.val == "trigger" {
+			ps.next()
+			ps.expect("(")
+			for {
+				q.Triggers = append(q.Triggers, ps.expr())
+				if !ps.accept(",") {
+					break
+				}
+			}
+			ps.expect(")")
 		}
 		ps.expect("::")
 		q.Body = ps.expr()
@@ -444,7 +456,11 @@ func substExpr(e Expr, sub map[string]Expr) Expr {
 		for _, v := range x.Vars {
 			delete(inner, v.Name)
 		}
-		return &EQuant{x.Forall, x.Vars, substExpr(x.Body, inner)}
+		var trg []Expr
+		for _, t := range x.Triggers {
+			trg = append(trg, substExpr(t, inner))
+		}
+		return &EQuant{x.Forall, x.Vars, substExpr(x.Body, inner), trg}
 	case *EOld:
 		return &EOld{substExpr(x.X, sub)}
 	}
